@@ -28,7 +28,8 @@ type c24Lit struct {
 func (l *c24Lit) feat(f string) { l.Feats = append(l.Feats, f) }
 
 type c24Speller struct {
-	r *rand.Rand
+	r       *rand.Rand
+	leadOne bool // the next integer element is written with exactly one leading zero
 }
 
 func (s *c24Speller) chance(p float64) bool    { return s.r.Float64() < p }
@@ -445,7 +446,16 @@ func (s *c24Speller) intElem(l *c24Lit, a c24ArrSpec, neg bool, mag *big.Int) st
 		pre = s.prefix(base)
 	}
 	st := c24DigitStyle{upper: []float64{0, 1, 0.5}[s.r.Intn(3)]}
-	switch s.r.Intn(8) {
+	style := s.r.Intn(8)
+	if s.leadOne {
+		s.leadOne = false
+		st.lead = 1
+		style = 3 + s.r.Intn(5)
+		if s.chance(0.3) {
+			st.sep = 0.4
+		}
+	}
+	switch style {
 	case 0:
 		st.lead = 1 + s.r.Intn(3)
 		l.feat("elem.leadzero")
@@ -525,6 +535,18 @@ func (s *c24Speller) IntArray(a c24ArrSpec, n int, bad int) c24Lit {
 				v.Sub(v, big.NewInt(1))
 			}
 			l.feat("elem.outofrange.far")
+		case a.mode == 'x' && s.chance(0.2):
+			// a hexadecimal element that looks like it starts with a base prefix: one leading zero, then the digit b ("0b1f" is 0x0b1f)
+			d := 1 + s.r.Intn(a.bits/4-1)
+			v = new(big.Int).Lsh(big.NewInt(0xb), uint(4*(d-1)))
+			if d > 1 {
+				v.Add(v, new(big.Int).Rand(s.r, c24Pow2(uint(4*(d-1)))))
+			}
+			if signed && s.chance(0.4) {
+				v.Neg(v)
+			}
+			s.leadOne = true
+			l.feat("elem.hex-looks-like-binary-prefix")
 		default:
 			switch s.r.Intn(6) {
 			case 0:
